@@ -9,8 +9,15 @@ point number $BFG9000_VERIF_FAULT ("k:kill" or "k:enospc") the process is
 killed with os._exit(137) (buffered data is lost, as with SIGKILL) or the
 call raises OSError(ENOSPC)."""
 import os
+import sys
 
-if os.environ.get('BFG9000_VERIF') == '1':
+# the reference ninja (harness/ninja_ref.py, installed as .../bin/ninja) is
+# part of the environment, not of bfg9000: its own file operations (creating
+# output directories, its build log) are not mutation points
+_argv0 = os.path.basename((getattr(sys, 'argv', None) or [''])[0])
+
+if os.environ.get('BFG9000_VERIF') == '1' and _argv0 not in (
+        'ninja', 'ninja_ref.py'):
     import builtins
     import errno
     import json
@@ -31,6 +38,8 @@ if os.environ.get('BFG9000_VERIF') == '1':
             p = os.path.realpath(os.fspath(path))
         except TypeError:
             return None
+        if os.path.basename(p).startswith('.ninja_ref_'):
+            return None      # bookkeeping of the reference ninja, not bfg9000
         if p == _root or p.startswith(_root + os.sep):
             return os.path.relpath(p, _root)
         return None
